@@ -179,6 +179,9 @@ fn run_history(args: &Args, hist: u64, seed: u64, n_ops: u64, out: &Mutex<Out>) 
                     s.get_latest(&h).ok().map(|c| view(&c))
                 })).ok().flatten()
             };
+            // a session reset every now and then: its change sits in the write-ahead log until the next snapshot
+            let did_reset = rng.chance(35) && sys.krill.repo_manager().rrdp_session_reset().is_ok();
+            if did_reset { std::thread::sleep(std::time::Duration::from_millis(1100)); }
             let a = load();
             let ok_snap = WalStore::<RepositoryContent>::create(sys.krill.storage(), PUBSERVER_CONTENT_NS).ok().map(|s| s.update_snapshots().is_ok()).unwrap_or(false);
             let b = load();
@@ -196,8 +199,14 @@ fn run_history(args: &Args, hist: u64, seed: u64, n_ops: u64, out: &Mutex<Out>) 
                     }
                 }
             }
+            // ... and what the API shows of the RRDP state: session, serial and time of the last update
+            if let (Some(av), Ok(stats)) = (&a, sys.krill.repo_manager().repo_stats()) {
+                let sv = serde_json::to_value(&stats).unwrap();
+                if av["rrdp"]["session"] != sv["session"] || av["rrdp"]["serial"] != sv["serial"] || av["rrdp"]["last_update"] != sv["last_update"] { live_ok = false; }
+            }
             let t = Tracked { ops: vec!["EFresh".into()], n_cmds: 0, total_events: 0, seen_version: 0 };
             let mut o = out.lock().unwrap();
+            if did_reset { *o.kinds.entry("RepositoryContent:after_session_reset".into()).or_default() += 1; }
             let idx = o.w.total;
             let rec = json!({"index": idx, "history": hist, "aggregate": "RepositoryContent(WAL)", "fresh_equals_live": live_ok, "snapshot_equals_init": a == b, "load_failed": failed, "class": {"aggregate": "RepositoryContent"}});
             use std::io::Write;
